@@ -27,7 +27,7 @@ pub(crate) mod verif_mutex {
 
     /// Bounded history through the public API.
     /// cfg: 0 = unfair, 1 = fair, 2 = symbolic.
-    pub fn hist<M: RawMutex, S: Src>(s: &mut S, cfg: u8, n: usize, p: u32) -> u32 {
+    pub fn hist<M: RawMutex, S: Src>(s: &mut S, cfg: u32, n: usize, p: u32) -> u32 {
         let fair = if cfg == 2 { s.flag() } else { cfg == 1 };
         let m = GenericMutex::<M, u8>::new(0, fair);
         let (c0a, c0b, c1a, c1b, c2a, c2b) = (
@@ -177,7 +177,7 @@ pub(crate) mod verif_mutex {
     }
 
     #[no_mangle]
-    pub fn fi_verif_replay_mutex(name: &str, cfg: u8, p: u32, s: &mut ScriptSrc<'_>) -> bool {
+    pub fn fi_verif_replay_mutex(name: &str, cfg: u32, p: u32, s: &mut ScriptSrc<'_>) -> bool {
         match name {
             "mutex_hist_noop" => { hist::<NoopLock, _>(s, cfg, 64, p); }
             "mutex_hist_check" => { hist::<CheckLock, _>(s, cfg, 64, p); }
